@@ -27,9 +27,11 @@ end N
 
 /-- rewrite every `Num ℝ` projection in the goal and in all hypotheses to the standard real operation -/
 macro "realnum" : tactic =>
-  `(tactic| simp only [N.add, N.sub, N.mul, N.div, N.neg, N.lt, N.le, N.sci, RealNum.zero_eq, RealNum.one_eq,
+  `(tactic| (
+    try simp only [N.add, N.sub, N.mul, N.div, N.neg, N.lt, N.le, N.sci, RealNum.zero_eq, RealNum.one_eq,
       RealNum.ofNat_eq, RealNum.gmin_eq, RealNum.gmax_eq, RealNum.exp_eq, RealNum.pow_eq, RealNum.abs_eq,
-      RealNum.pmin_eq, RealNum.pmax_eq, Nat.cast_ofNat, Nat.cast_zero, Nat.cast_one, gt_iff_lt, ge_iff_le] at *)
+      Nat.cast_ofNat, Nat.cast_zero, Nat.cast_one, gt_iff_lt, ge_iff_le] at *
+    try simp only [RealNum.pmin_eq, RealNum.pmax_eq] at *))
 
 /-- One-step facts lift to whole runs: if every step from a state satisfying `Inv` on an input satisfying `Ok`
 keeps `Inv`, closes the budget `mass s + inn x = mass s' + out o` and relates input and output by `R`, then for
